@@ -71,3 +71,10 @@ def enc_tree(t):
     name, props, subs = t
     return '(' + enc(name) + ';' + str(len(props)) + ''.join(';' + enc_entry(e) for e in props) + ';' + \
         str(len(subs)) + ''.join(';' + enc_tree(s) for s in subs) + ')'
+
+
+def canon_tree(t):
+    """order-insensitive view: properties sorted by name (values of one name keep their order), parameters sorted"""
+    name, props, subs = t
+    cp = sorted((k, is_list, [(kind, text, sorted(params)) for kind, text, params in vals]) for k, is_list, vals in props)
+    return (name, cp, [canon_tree(s) for s in subs])
